@@ -13,7 +13,11 @@ class Pool:
     """A configuration family: geometry + pools of named materials, attenuations, sources,
     run parameters.  Equal names denote equal data (the model's `inp` terms)."""
 
-    def __init__(self, rng, multi_dir=None, n_bands=None, in_sampling=None):
+    def __init__(self, rng, multi_dir=None, n_bands=None, in_sampling=None, seed=None):
+        # every pool has its own seed (drawn from the run's generator), so a replay can rebuild it
+        self.seed = int(rng.integers(0, 2**31)) if seed is None else int(seed)
+        self.ctor = [multi_dir, n_bands, in_sampling]
+        rng = np.random.Generator(np.random.PCG64(self.seed))
         self.sides, self.patch = scenes.gen_room_params(rng, small=True)
         self.B = int(n_bands or rng.choice([1, 2, 3]))
         md = (rng.random() < 0.4) if multi_dir is None else multi_dir
@@ -74,7 +78,26 @@ class Pool:
 
     def describe(self):
         return {'sides': self.sides, 'patch': self.patch, 'B': self.B, 'multi_dir': self.samp_par, 'incoming_sampling': self.samp_in_par,
-                'pars': {k: [float(x) for x in v] for k, v in self.pars.items()}}
+                'pars': {k: [float(x) for x in v] for k, v in self.pars.items()}, 'pool_seed': self.seed, 'pool_ctor': self.ctor}
+
+    @staticmethod
+    def from_description(d):
+        md, nb, ins = d.get('pool_ctor', [None, None, None])
+        return Pool(None, multi_dir=md, n_bands=nb, in_sampling=ins, seed=d['pool_seed'])
+
+
+def parse_ops(ops):
+    """Inverse of `[list(map(str, o)) for o in ops]` (replay files)."""
+    import ast as _ast
+    out = []
+    for o in ops:
+        if o[0] == 'S':
+            out.append(('S', list(_ast.literal_eval(o[1])), o[2]))
+        elif o[0] == 'X':
+            out.append(('X', o[1], int(o[2])))
+        else:
+            out.append(tuple(o))
+    return out
 
 
 def gen_setters(rng, pool, none_prob=0.2, overrides=False):
